@@ -439,7 +439,26 @@ pub fn gen_schema(t: &mut Tape, cfg: &GenCfg) -> Schema {
                     break;
                 }
             }
-            fields.push(InputFieldDef { name, ty: TypeExpr::new(named, nonnull) });
+            let ty = TypeExpr::new(named, nonnull);
+            let default = if !one_of && t.chance(15) {
+                let leaf = match named {
+                    Named::Int => Some("20"),
+                    Named::Float => Some("1.5"),
+                    Named::String | Named::ID => Some("\"dflt\""),
+                    Named::Boolean => Some("true"),
+                    _ => None,
+                };
+                leaf.map(|l| {
+                    let mut s = l.to_string();
+                    for _ in 0..ty.depth() {
+                        s = format!("[{}]", s);
+                    }
+                    s
+                })
+            } else {
+                None
+            };
+            fields.push(InputFieldDef { name, ty, default });
         }
         schema.inputs[ii].fields = fields;
         schema.inputs[ii].one_of = one_of;
@@ -997,7 +1016,20 @@ pub fn gen_document(t: &mut Tape, schema: &mut Schema, cfg: &GenCfg) -> Document
                 }
             }
         }
-        g.frags.push(Fragment { name, on: on_name, sel });
+        let was_recursive = sel.iter().any(|s| matches!(s, Selection::Field(f) if f.sel.iter().any(|x| matches!(x, Selection::Spread(n) if n == &name) || matches!(x, Selection::Inline { sel, .. } if sel.iter().any(|y| matches!(y, Selection::Spread(n) if n == &name)))))) ;
+        g.frags.push(Fragment { name: name.clone(), on: on_name.clone(), sel });
+        if was_recursive && t.chance(50) {
+            // a non-recursive fragment that leads into the recursive one (`W { ...F }` / `W { f { ...F } }`)
+            let wname = names::frag_name(t, &mut module_scope, &cfg.names);
+            let wsel = match (on, t.chance(50)) {
+                (Named::Object(oi), true) => match schema_ro.objects[oi].fields.iter().find(|f| f.ty.named == on && f.ty.can_terminate()) {
+                    Some(f) => vec![Selection::Field(FieldSel { alias: Some("zzInto".into()), name: f.name.clone(), args: vec![], sel: vec![Selection::Spread(name.clone())] })],
+                    None => vec![Selection::Spread(name.clone())],
+                },
+                _ => vec![Selection::Spread(name.clone())],
+            };
+            g.frags.push(Fragment { name: wname, on: on_name, sel: wsel });
+        }
     }
 
     // D9 family: a pair of mutually recursive fragments A -> B -> A through a terminable field
